@@ -491,6 +491,8 @@ def gen(rng, tier):
         if scripts:
             cases.append({"kind": "det", "seed": rng.choice([0, 1, 7, 123456]),
                           "data": [40, table, weights, start, scripts]})
+            cases.append({"kind": "det_perm", "seed": rng.choice([0, 1, 7]),
+                          "data": [40, table, weights, start, []]})
         if det_count(table, start) <= 150:
             small.append((src, table, weights, start))
     # ... and unambiguous tables
@@ -560,6 +562,8 @@ def to_model(case):
         return (1, d)
     if k == "draw":
         return (2, d)
+    if k == "det_perm":
+        return (1, [[1, 1]])
     if k == "det":
         # the well-formedness flag enumerates the language: only evaluated for small ones
         wfuel = 12 if det_count(d[1], d[3]) <= 400 else 0
@@ -719,6 +723,8 @@ def aspects(case, io, mo):
         return {"untouched": untouched, "dist": good}
     if k == "draw":
         return {"draws": io == mo[0]}
+    if k == "det_perm":
+        return {"aligned": io.get("aligned") is True}
     if k == "det":
         exp = [[q for _, q in ws] for _, ws in d[2]]
         return {"runs": res_equal(io["runs"], mo[2]), "weights": weights_close(io["built"], exp),
@@ -835,6 +841,8 @@ def classify(case, io, mo):
 def nontrivial(case, mo):
     k = case["kind"]
     try:
+        if k == "det_perm":
+            return any(len(ws) > 1 for _, ws in case["data"][2])
         if k == "table":
             return bool(mo[0]) and any(Fr(p) < 1 for p in mo[0][0][0])
         if k == "draw":
@@ -857,6 +865,8 @@ def nontrivial(case, mo):
 
 def describe(case, mo):
     k, d = case["kind"], case["data"]
+    if k == "det_perm":
+        return {"kind": k, "non_terminals": len(d[1]), "what": "probability tables written in reverse rule order"}
     if k in ("table", "stat"):
         w = d if k == "table" else d[0]
         return {"kind": k, "weights": [float(Fr(x)) for x in w][:12],
